@@ -73,15 +73,46 @@ def outcome_term(o, offers):
     return C("OOutOfFuel")      # any other exception / foreign object: no outcome of the right shape (law clause 8)
 
 
+def is_query(op):
+    return op[0] not in ("register", "offer")
+
+
+def state_at(case, ob, step):
+    """(issubclass table, MROs, offers) current at history position `step`."""
+    sub, mro, offers = ob["sub"], ob["mro"], list(case["offers"])
+    for op, o in list(zip(case["ops"], ob["obs"]))[:step]:
+        if op[0] == "register" and o.get("k") == "mut":
+            sub, mro = o["sub"], o["mro"]
+        elif op[0] == "offer":
+            offers.append(op[1:4])
+    return sub, mro, offers
+
+
 def to_term(case, ob):
     if not ob.get("ok"):
-        return ([], [], [], [])
-    offers = case["offers"]
-    qs = []
-    for (src, tgt, flag, api), o in zip(case["ops"], ob["obs"]):
-        qs.append(((Nat(src), Nat(tgt), bool(flag), API_T[api]), outcome_term(o, offers)))
-    return ([[bool(x) for x in row] for row in ob["sub"]], [[Nat(t) for t in row] for row in ob["mro"]],
-            [(Nat(f), Nat(t), fac_term(fc)) for f, t, fc in offers], qs)
+        return []
+    sub, mro, offers = ob["sub"], ob["mro"], list(case["offers"])
+    phases, qs = [], []
+
+    def close():
+        if qs:
+            phases.append(([[bool(x) for x in row] for row in sub], [[Nat(t) for t in row] for row in mro],
+                           [(Nat(f), Nat(t), fac_term(fc)) for f, t, fc in offers], list(qs)))
+            del qs[:]
+
+    for i, (op, o) in enumerate(zip(case["ops"], ob["obs"])):
+        if op[0] == "register":
+            close()
+            if o.get("k") == "mut":
+                sub, mro = o["sub"], o["mro"]
+        elif op[0] == "offer":
+            close()
+            offers = offers + [op[1:4]]
+        else:
+            src, tgt, flag, api = op
+            qs.append((i, (Nat(src), Nat(tgt), bool(flag), API_T[api]), outcome_term(o, offers)))
+    close()
+    return phases
 
 
 # ---------------------------------------------------------------- keys
@@ -103,13 +134,14 @@ def _specificity_shape(case, ob, step):
         o = ob["obs"][step]
         vals = [o.get("v"), o.get("shadow")]
         chain = next(v[1] for v in vals if v and v[0] == "adapter")
-        sub = ob["sub"]
-        f0 = case["offers"][chain[0]][0]
-        d0 = _dist(ob, src, f0)
-        for i, (f, t, fc) in enumerate(case["offers"]):
-            if i != chain[0] and sub[src][f] and _dist(ob, src, f) == d0 and f != f0:
-                for j, (g, t2, fc2) in enumerate(case["offers"]):
-                    if sub[src][g] and _dist(ob, src, g) == d0 and g != f and not sub[f][g] and not sub[g][f]:
+        sub, mro, offers = state_at(case, ob, step)
+        tb = {"sub": sub, "mro": mro}
+        f0 = offers[chain[0]][0]
+        d0 = _dist(tb, src, f0)
+        for i, (f, t, fc) in enumerate(offers):
+            if i != chain[0] and sub[src][f] and _dist(tb, src, f) == d0 and f != f0:
+                for j, (g, t2, fc2) in enumerate(offers):
+                    if sub[src][g] and _dist(tb, src, g) == d0 and g != f and not sub[f][g] and not sub[g][f]:
                         return "incomparable-offer-at-same-distance"
         return "direct"
     except Exception:
@@ -117,7 +149,7 @@ def _specificity_shape(case, ob, step):
 
 
 def key_fn(case, ob, step, clause):
-    api = case["ops"][step][3]
+    api = case["ops"][step][3] if is_query(case["ops"][step]) else "adapt"
     kind = "compound-trait" if api.startswith("either") else \
         "trait" if api in ("inst0", "inst1", "inst2", "Supports", "AdaptsTo") else "adapt"
     if clause == 6:
@@ -126,9 +158,11 @@ def key_fn(case, ob, step, clause):
 
 
 def describe(case, ob, step, clause):
-    return ("adaptation: clause %s fails for query (src=T%d, target=T%d, flag=%d, entry=%s): observed %r; types=%r regs=%r "
-            "offers(from,to,factory)=%r" % ((CLAUSE.get(clause, clause),) + tuple(case["ops"][step]) + (
-                ob["obs"][step] if ob.get("ok") else ob, case["types"], case.get("regs", []), case["offers"])))
+    return ("adaptation: clause %s fails for query (src=T%d, target=T%d, flag=%d, entry=%s) at history position %d: observed "
+            "%r; types=%r regs=%r offers(from,to,factory)=%r history=%r" % (
+                (CLAUSE.get(clause, clause),) + tuple(case["ops"][step]) + (
+                    step, ob["obs"][step] if ob.get("ok") else ob, case["types"], case.get("regs", []), case["offers"],
+                    case["ops"][:step + 1])))
 
 
 _CTX = [None]
@@ -142,13 +176,16 @@ def nontrivial(case, ob):
             ctx.count("hierarchy:rejected-by-python")
         else:
             for o in ob["obs"]:
+                if o["k"] in ("mut", "mutfail"):
+                    ctx.count("history:" + o["k"])
+                    continue
                 v = o.get("shadow") if (o.get("shadow") or [""])[0] == "adapter" else o.get("v")
                 if o["k"] in ("value", "stored"):
                     ctx.count("result:" + (v[0] if v[0] != "adapter" else "chain-of-%d" % len(v[1])))
                 else:
                     ctx.count("result:" + (o["k"] if o["k"] != "bool" else "supports-%s" % o["b"]))
     nt = bool(ob.get("ok")) and any(
-        o["k"] in ("AdaptationError", "TraitError") or (o.get("v") or [""])[0] in ("adapter", "default")
+        o["k"] in ("AdaptationError", "TraitError", "mut") or (o.get("v") or [""])[0] in ("adapter", "default")
         or (o.get("shadow") or [""])[0] == "adapter" for o in ob["obs"])
     return sig, nt
 
@@ -273,6 +310,25 @@ def gen_case(rnd, ctx, max_types, max_offers, nq):
                          "Supports", "Supports", "AdaptsTo", "AdaptsTo", "either0", "either1", "either2"])
         ops.append([src, tgt, rnd.randint(0, 1), api])
         ctx.count("entry:" + api)
+    # histories: after the first round of queries change the hierarchy (ABCMeta.register) or the registry
+    # (register_offer) and ask again; the answer must follow the CURRENT state
+    if sub is not None and rnd.random() < 0.35:
+        first = list(ops)
+        for _ in range(rnd.randint(1, 2)):
+            abcs = [i for i, t in enumerate(types) if t["abc"]]
+            if abcs and rnd.random() < 0.6:
+                a = rnd.choice(abcs)
+                b = rnd.randrange(n)
+                if a != b:
+                    ops.append(["register", a, b])
+            elif len(offers) + sum(1 for o in ops if o[0] == "offer") < max_offers:
+                ops.append(["offer", rnd.randrange(n), hub if rnd.random() < 0.5 else rnd.randrange(n), ["A"]])
+            ops.extend(rnd.sample(first, min(len(first), 4)))
+        ctx.count("shape:history-with-changes")
+    if rnd.random() < 0.3:
+        for t in types:
+            t["name"] = "P"            # all classes share one __name__ (they live in different modules)
+        ctx.count("shape:same-class-names")
     ctx.count("types:%d" % n)
     ctx.count("offers:%d" % no)
     ctx.count("abc-types:%d" % sum(1 for t in types if t["abc"]))
@@ -293,6 +349,20 @@ def corpus():
     # the same without the incomparable offer: the specific offer wins
     cs.append(dict(types=types, regs=[], offers=[[1, 5, ["A"]], [2, 5, ["A"]]],
                    ops=[[4, 5, 0, a] for a in ("adapt", "Supports")]))
+    # history: the adaptation fails, then ABCMeta.register makes the type provide the from-protocol, then it succeeds;
+    # and: no offer, fails, register_offer, succeeds
+    cs.append(dict(types=[{"bases": [], "abc": True}, {"bases": []}, {"bases": []}], regs=[], offers=[[0, 2, ["A"]]],
+                   ops=[[1, 2, 0, "adapt_default"], [1, 0, 0, "supports"], ["register", 0, 1], [1, 2, 0, "adapt_default"],
+                        [1, 2, 0, "Supports"], [1, 0, 0, "supports"], [1, 0, 0, "adapt"]]))
+    cs.append(dict(types=[{"bases": []}, {"bases": []}, {"bases": []}], regs=[], offers=[[0, 1, ["A"]]],
+                   ops=[[0, 2, 0, "adapt_default"], ["offer", 1, 2, ["A"]], [0, 2, 0, "adapt_default"], [0, 2, 0, "AdaptsTo"],
+                        ["offer", 0, 2, ["A"]], [0, 2, 0, "adapt"]]))
+    # two unrelated classes with the same __name__ in different modules, each with its own offer
+    cs.append(dict(types=[{"bases": [], "name": "Doc"}, {"bases": [], "name": "Doc"}, {"bases": [], "name": "Out"},
+                          {"bases": [], "name": "Out"}], regs=[],
+                   offers=[[0, 2, ["A"]], [1, 3, ["A"]]],
+                   ops=[[0, 2, 0, "adapt"], [1, 3, 0, "adapt_default"], [1, 2, 0, "adapt_default"], [0, 3, 0, "adapt_default"],
+                        [1, 3, 0, "Supports"]]))
     # MRO distance counts only the LEADING providers: T2(T0, T1) is at distance 1 from T0 and 0 from T1
     mi = [{"bases": []}, {"bases": []}, {"bases": [0, 1]}, {"bases": []}]
     for offs in ([[0, 3, ["A"]], [1, 3, ["A"]]], [[1, 3, ["A"]], [0, 3, ["A"]]]):
@@ -388,5 +458,5 @@ def run(ctx):
         ctx.sample(c)
     n = hist.run(ctx, DRIVER, cases, to_term, HEADER, CASE_T, key_fn, describe, nontrivial,
                  relation="C17.Corr.corr_codes (Model.run_api = implementation on every query)")
-    ctx.cov["evaluations"] = sum(len(c["ops"]) for c in cases) if n else 0
+    ctx.cov["evaluations"] = sum(1 for c in cases for op in c["ops"] if is_query(op)) if n else 0
     proof_gate(ctx, ok, log, PROPS)
